@@ -13,6 +13,9 @@ CLAIMED = {
  "C05": ("SSA path tables (default error encoder closure, status table, constructors), struct-literal field fidelity, stale-flag lint, template parse-tree rules (fallback arms, range-element rule, header constant agreement)",
          "Static necessary conditions only: one well-ordered response per path of the default error encoder, exhaustive default status table, fault wrapping of non-service errors, constructor flag triples and field fidelity, standard names of decoding/validation errors, fallback of undeclared errors in the generated encoder, no stale flag in the error→response resolution, no element confusion in template range bodies. Does not decide name-based dispatch end to end for arbitrary designs.",
          "DESIGN.md §3 C05"),
+ "C07": ("callee/field identity of the route source, verb TABLE (DSL constructors vs builder switch vs document slots), CONSUMES over HTTPEndpointExpr via reachability-scoped field reads, walker/collection agreement lint, memo-key / stale-flag / required-key lints",
+         "Static necessary conditions only: server and both documents share FullPaths/Method; every mountable verb has a case where the format has a slot; every request location the server reads is read by the builders; required flags and `in` literals are taken from the collection being walked; same has-body predicate; base path decided per route; required flags propagated under the key they are looked up with. Does not decide validity against the OpenAPI schemas nor JSON≡YAML.",
+         "DESIGN.md §3 C07"),
  "C09": ("map-iteration-order classification (reviewed table), sort-comparator lint, forbidden-call scan, SSA path table of File.Render, reachability-scoped who-may-produce rule, template parse-tree order, go/cfg dominance and error-gate polarity",
          "Static necessary conditions only: no order-sensitive map iteration or mis-indexed comparator in generator packages, no ambient nondeterminism, seeded example randomizer, existing example files never opened, append-only opening, gen directories wiped before regeneration, sorted output list, write-pipeline errors tested with the right polarity. Cannot prove byte equality across processes.",
          "DESIGN.md §3 C09"),
